@@ -12,7 +12,7 @@
    multiplication): rn with any positive weighting, uniform_discr, product
    spaces are instances (Instances.v, Lists.v). *)
 From Coq Require Import Reals List Bool.
-From Verif Require Import Base.Num Base.Vec C09.Model C09.IPS C09.Proofs C09.Instances C09.Lists C09.Pointwise.
+From Verif Require Import Base.Num Base.Vec C09.Model C09.IPS C09.Proofs C09.Instances C09.Lists C09.Pointwise C09.Matrix.
 Local Open Scope R_scope.
 
 (* T1 (gradient rules, all trees).  For every expression tree, of any depth and
@@ -88,6 +88,21 @@ Theorem shifted_operator_sound : forall (S1 S2 : RSpace), SpaceLaws S2 ->
   forall (A : Oper S1 S2) t x, op_sound A x -> op_sound (op_shift A t) x.
 Proof. exact op_shift_sound. Qed.
 Print Assumptions operators_sound.
+
+(* OperatorComp: the chain rule for operators (derivative DA(Bx) o DB(x), adjoints reversed) *)
+Theorem composed_operator_sound : forall (S1 S2 S3 : RSpace),
+  SpaceLaws S1 -> SpaceLaws S2 -> SpaceLaws S3 ->
+  forall (A : Oper S2 S3) (B : Oper S1 S2) x,
+  op_sound B x -> op_sound A (op_app B x) -> op_sound (op_comp A B) x.
+Proof. exact op_comp_sound. Qed.
+(* MatrixOperator rn(n1) -> rn(n2) (unit weights): linear, bounded (Frobenius),
+   and the plain transpose used by the code is its adjoint; the operator on the
+   sigma carrier is Model.op_matrix applied to the underlying lists. *)
+Theorem matrix_operator_sound : forall (n1 n2 : nat) (m : list (list R))
+  (Hrows : rows_ok n1 m) (Hn2 : length m = n2) (x : Vn n1),
+  op_sound (sop_matrix n1 n2 m Hrows Hn2) x.
+Proof. exact sop_matrix_sound. Qed.
+Print Assumptions matrix_operator_sound.
 
 (* T1 (documented values of the overloads). *)
 Theorem translated_merges_soundly : forall (S : RSpace), SpaceLaws S ->
